@@ -845,11 +845,11 @@ impl LdapConnAsync {
                                     }
                                 },
                                 LdapOp::Unbind => {
+                                    // One shutdown is enough: the request has been flushed, and a
+                                    // second shutdown of a TLS stream would wait for the peer's
+                                    // close_notify, i.e., for as long as the peer pleases.
                                     if let Err(e) = self.stream.get_mut().shutdown().await {
                                         warn!("socket shutdown error: {}", e);
-                                    }
-                                    if let Err(e) = self.stream.close().await {
-                                        warn!("socket close error: {}", e);
                                     }
                                 },
                             }
